@@ -131,6 +131,47 @@ pub fn sym_str<'a, S: Src, const N: usize>(s: &mut S, buf: &'a mut [u8; N]) -> &
     unsafe { core::str::from_utf8_unchecked(&buf[..len]) }
 }
 
+/// One of `values`, chosen symbolically and copied into `buf` (a single object, so the model
+/// checker never sees a pointer that may refer to several different string literals).
+pub fn pick_str<'a, S: Src, const N: usize>(s: &mut S, values: &[&str], buf: &'a mut [u8; N]) -> &'a str {
+    let idx = s.below(values.len() as u8) as usize;
+    let v = values[idx].as_bytes();
+    let len = v.len();
+    let mut i = 0;
+    while i < N {
+        if i < len {
+            buf[i] = v[i];
+        }
+        i += 1;
+    }
+    unsafe { core::str::from_utf8_unchecked(&buf[..len]) }
+}
+
+/// like `pick_str`, but the last alternative is a free ASCII string of at most `F` bytes
+pub fn pick_or_sym_str<'a, S: Src, const N: usize, const F: usize>(s: &mut S, values: &[&str], buf: &'a mut [u8; N]) -> &'a str {
+    let idx = s.below(values.len() as u8) as usize;
+    if idx + 1 < values.len() {
+        let v = values[idx].as_bytes();
+        let len = v.len();
+        let mut i = 0;
+        while i < N {
+            if i < len {
+                buf[i] = v[i];
+            }
+            i += 1;
+        }
+        unsafe { core::str::from_utf8_unchecked(&buf[..len]) }
+    } else {
+        let len = s.below(F as u8 + 1) as usize;
+        let mut i = 0;
+        while i < F {
+            buf[i] = s.byte() & 0x7f;
+            i += 1;
+        }
+        unsafe { core::str::from_utf8_unchecked(&buf[..len]) }
+    }
+}
+
 // ------------------------------------------------------------------ SV
 
 pub const K_ABSENT: u8 = 0;
@@ -361,9 +402,10 @@ impl<'de> Deserializer<'de> for SV<'de> {
 }
 
 fn visit_seq<'de, V: Visitor<'de>>(items: &'de [SV<'de>], visitor: V) -> Result<V::Value, E> {
-    let mut acc = SeqDe { items, pos: 0 };
+    let mut acc = SeqDe { items, pos: 0, ended: false };
     let v = visitor.visit_seq(&mut acc)?;
-    if acc.pos == items.len() {
+    // serde_json: trailing elements the visitor did not consume => invalid length
+    if acc.ended || acc.pos >= items.len() {
         Ok(v)
     } else {
         Err(E)
@@ -371,34 +413,43 @@ fn visit_seq<'de, V: Visitor<'de>>(items: &'de [SV<'de>], visitor: V) -> Result<
 }
 
 fn visit_map<'de, V: Visitor<'de>>(entries: &'de [(&'de str, SV<'de>)], visitor: V) -> Result<V::Value, E> {
-    let mut acc = MapDe { entries, pos: 0, pending: None };
+    let mut acc = MapDe { entries, pos: 0, pending: None, ended: false };
     let v = visitor.visit_map(&mut acc)?;
     // serde_json: remaining entries => invalid length
-    if acc.pos == entries.len() {
+    if acc.ended || acc.pos >= entries.len() {
         Ok(v)
     } else {
         Err(E)
     }
 }
 
+pub const SEQ_PREALLOC: usize = 4;
+
 struct SeqDe<'de> {
     items: &'de [SV<'de>],
     pos: usize,
+    ended: bool,
 }
 
 impl<'de> SeqAccess<'de> for SeqDe<'de> {
     type Error = E;
     fn next_element_seed<T: DeserializeSeed<'de>>(&mut self, seed: T) -> Result<Option<T::Value>, E> {
-        if self.pos < self.items.len() {
-            let v = self.items[self.pos];
-            self.pos += 1;
-            seed.deserialize(v).map(Some)
+        // `pos` is advanced unconditionally so that it stays a constant in every unrolled
+        // iteration (a conditional increment becomes an if-then-else term after the join and
+        // every later buffer access turns into a symbolic-index access)
+        let p = self.pos;
+        self.pos = p + 1;
+        if p < self.items.len() {
+            seed.deserialize(self.items[p]).map(Some)
         } else {
+            self.ended = true;
             Ok(None)
         }
     }
     fn size_hint(&self) -> Option<usize> {
-        Some(self.items.len() - self.pos)
+        // serde uses the hint only to pre-allocate.  A *constant* keeps the capacity concrete, so
+        // the model checker does not have to consider a reallocation at every push.
+        Some(SEQ_PREALLOC)
     }
 }
 
@@ -406,22 +457,25 @@ struct MapDe<'de> {
     entries: &'de [(&'de str, SV<'de>)],
     pos: usize,
     pending: Option<SV<'de>>,
+    ended: bool,
 }
 
 impl<'de> MapAccess<'de> for MapDe<'de> {
     type Error = E;
     fn next_key_seed<K: DeserializeSeed<'de>>(&mut self, seed: K) -> Result<Option<K::Value>, E> {
-        // Members whose value is `SV::Absent` are *presented* (so that positions and keys stay
+        // Members whose value is absent are *presented* (so that positions and keys stay
         // concrete for the model checker) and behave like a missing member at the value level:
         // `Option` fields read `None`, ignored values are skipped, everything else fails exactly
         // where serde would report "missing field".  The native differential run checks this
         // modelling against real absent keys in serde_json.
-        if self.pos < self.entries.len() {
-            let (k, v) = self.entries[self.pos];
-            self.pos += 1;
+        let p = self.pos;
+        self.pos = p + 1;     // unconditional: see SeqDe
+        if p < self.entries.len() {
+            let (k, v) = self.entries[p];
             self.pending = Some(v);
             seed.deserialize(KeyDe(k)).map(Some)
         } else {
+            self.ended = true;
             Ok(None)
         }
     }
